@@ -470,7 +470,9 @@ func (w *schedWorld) mustRetry() bool {
 		w.retries = 0
 		return false
 	}
-	limit := 8
+	// a transient error is retried until it goes away (the property's premise: the driver retries a step
+	// that reported an error, and a worker becomes free); only a repository verdict is dropped
+	limit := 1 << 30
 	if def.IsDefError(w.last.Err()) {
 		limit = 1
 	}
